@@ -69,7 +69,7 @@ type c08MetaLike struct {
 
 var c08stats struct {
 	rt, rtWrapper, rtTyped, rtCarried, rtDeleted, rtFmtHigh, unwraps, reparses int64
-	hostile, hostileOK, hostileErr, payloadMax                                int64
+	hostile, hostileOK, hostileErr, payloadMax                                 int64
 }
 
 func init() {
